@@ -203,6 +203,23 @@ func c11NoSpuriousEnd(c *fw.Ctx, idx int, sc c11Idle) {
 			return
 		}
 		time.Sleep(idle)
+	case "publishesOnly", "subscribesOnly":
+		// the client keeps the connection alive with other packets than PINGREQ (any control packet counts
+		// [MQTT-3.1.2-23]) for three keep-alive periods
+		end := time.Now().Add(time.Duration(3*sc.k) * time.Second)
+		for i := 0; time.Now().Before(end); i++ {
+			mark()
+			if sc.point == "publishesOnly" {
+				cc.Send(kit.EncPublish("c11/keepalive", []byte("tick"), 0, false, false, 0))
+			} else if err := cc.Sub1(fmt.Sprintf("c11/keepalive/%d", i), 0); err != nil {
+				if maxGap <= bound {
+					c.Violation("spurious-end:"+sc.point, fmt.Sprintf("%s: the client never exceeded %.1f s between packets (max measured gap %.2f s) but its SUBSCRIBE number %d was not answered (%v)", desc, bound.Seconds(), maxGap.Seconds(), i+1, err),
+						map[string]interface{}{"keepalive_s": sc.k, "point": sc.point, "max_gap_s": maxGap.Seconds(), "closed": cc.Closed()})
+				}
+				return
+			}
+			time.Sleep(idle)
+		}
 	case "betweenPings":
 		for i := 0; i < 2; i++ {
 			mark()
@@ -506,7 +523,7 @@ func c11CleanupScenario(c *fw.Ctx, idx int, sc c11Cleanup) {
 }
 
 func runC11(c *fw.Ctx) {
-	c.Rule = "(A) no spurious end: clients with keep-alive 2/5/10 s (and 40000 / 65535 s, idle 0.4-0.65 s) idle for 0.5-0.75 of it right after CONNECT, after SUBSCRIBE or between pings, measuring their own send times, then send PINGREQ; verdict only if every measured gap stayed <= 0.8 x keep-alive. (B) cleanup: cause in {DISCONNECT, client closes, silence beyond the allowance, second CONNECT, undecodable packet, displacement on the same / another node followed by the old session's PINGREQ, failure of the hosting node, outbound write failure exactly at a SUBACK or at the CONNACK (fault-injecting connection), displacement followed by the failure of the old host before the old session's next keep-alive exchange} x subscription sets (none, one, several, after unsubscribes) x 1-3 nodes with a running gossip pump; observed: EOF at the client end, SessionMetadatas/Subscriptions listings and local registries of every node (polled <= 10 s), packets at the ended session's pipe after later publishes (witness barrier), and at quiescence the invariant 'every listed subscription belongs to a listed session connected on the node it names'. distinct = scenario parameters; non-trivial = all"
+	c.Rule = "(A) no spurious end: clients with keep-alive 2/5/10 s (and 40000 / 65535 s, idle 0.4-0.65 s) idle for 0.5-0.75 of it right after CONNECT, after SUBSCRIBE or between pings, or keep the connection alive for three keep-alive periods with PUBLISH / SUBSCRIBE packets only, measuring their own send times, then send PINGREQ; verdict only if every measured gap stayed <= 0.8 x keep-alive. (B) cleanup: cause in {DISCONNECT, client closes, silence beyond the allowance, second CONNECT, undecodable packet, displacement on the same / another node followed by the old session's PINGREQ, failure of the hosting node, outbound write failure exactly at a SUBACK or at the CONNACK (fault-injecting connection), displacement followed by the failure of the old host before the old session's next keep-alive exchange} x subscription sets (none, one, several, after unsubscribes) x 1-3 nodes with a running gossip pump; observed: EOF at the client end, SessionMetadatas/Subscriptions listings and local registries of every node (polled <= 10 s), packets at the ended session's pipe after later publishes (witness barrier), and at quiescence the invariant 'every listed subscription belongs to a listed session connected on the node it names'. distinct = scenario parameters; non-trivial = all"
 	c.Assume("keep-alive allowance: a client that never lets more than 0.8 x keep-alive pass between packets is within it (MQTT allows 1.5 x)")
 	c.Assume("teardown predicates are polled for <= 10 s; there is no code path that makes them true later than the teardown itself")
 	var wg sync.WaitGroup
@@ -520,6 +537,7 @@ func runC11(c *fw.Ctx) {
 	if !c.Quick() {
 		idles = append(idles, c11Idle{10, 0.75, "afterSubscribe"}, c11Idle{10, 0.75, "betweenPings"}, c11Idle{7, 0.75, "afterConnect"}, c11Idle{30, 0.5, "afterConnect"}, c11Idle{3, 0.75, "afterConnect"}, c11Idle{4, 0.78, "afterSubscribe"})
 	}
+	idles = append(idles, c11Idle{2, 0.4, "publishesOnly"}, c11Idle{2, 0.45, "subscribesOnly"})
 	for i, sc := range idles {
 		wg.Add(1)
 		go func(i int, sc c11Idle) { defer wg.Done(); c11NoSpuriousEnd(c, i, sc) }(i, sc)
